@@ -30,7 +30,7 @@ def configs(tier):
         archs = [(1, 1), (2, 3), (3, 2), (2, 1)]
     else:
         archs = [(nv, nh) for nv in range(1, 6) for nh in range(1, 7)]
-    hist = [{"kind": "positive", "nv": 2, "nh": 3, "via": "deepcopy"}, {"kind": "complex", "nv": 2, "nh": 1, "via": "deepcopy"}, {"kind": "complex", "nv": 1, "nh": 1, "via": "pickle"}]
+    hist = [{"kind": "complex", "nv": 2, "nh": 1, "grad": "off"}, {"kind": "positive", "nv": 2, "nh": 3, "via": "deepcopy"}, {"kind": "complex", "nv": 2, "nh": 1, "via": "deepcopy"}, {"kind": "complex", "nv": 1, "nh": 1, "via": "pickle"}]
     return [{"kind": k, "nv": nv, "nh": nh} for k in ("positive", "complex") for (nv, nh) in archs] + hist + [{"generic": "every shape"}, {"lean": "size-generic lemmas"}, {"independence": "complex"}]
 
 
